@@ -207,7 +207,8 @@ def gen_content(st, case):
         conc = {"seed": rp.getrandbits(32), "allowlist": other, "rotate": rp.randrange(max(1, n)),
                 "policy": ({"kind": "walk", "p": rp.choice([0.05, 0.1, 0.3])} if rp.random() < 0.7 else
                            {"kind": "pct", "depth": rp.choice([1, 2, 3]), "horizon": rp.choice([50, 200, 600])})}
-    return {"lines": lines, "trailing_newline": rp.random() < 0.85, "redact": redact, "concurrent": conc}
+    return {"lines": lines, "trailing_newline": rp.random() < 0.85, "redact": redact, "concurrent": conc,
+            "keep_rc": rp.random() < 0.4}          # the command spec is declared with keep_rc=True (as ls_la_filtered is)
 
 
 # ------------------------------------------------------------------------------------------------
@@ -563,7 +564,7 @@ def run_content(case, world, viols, stats):
         # ---------------- P1c host pre-filter of a command pipeline (real cat | grep)
         if exp:
             try:
-                cp = CommandOutputProvider("/bin/cat %s" % os.path.join(root, rel), hc, ds=ds)
+                cp = CommandOutputProvider("/bin/cat %s" % os.path.join(root, rel), hc, ds=ds, keep_rc=bool(content.get("keep_rc")))
                 try:
                     out = cp.content
                 except (ContentException, CalledProcessError):
